@@ -48,7 +48,8 @@ def kw_regex(text, kind):
     rx = ''.join(out)
     if kind == 'wild' and text.endswith('*'):
         rx += r'\Z'
-    return re.compile(rx, re.I)
+    # a bare keyword / parse pattern is caseless and its wildcards span line breaks; a quoted keyword is case-sensitive
+    return re.compile(rx, (re.I | re.S) if kind == 'wild' else 0)
 
 
 def split_with_delimiters(inp, sep):
